@@ -170,8 +170,16 @@ def work_pretag(bins, seed, n):
         post = rng.choice([None, None, 0, 1, 7])
         sem = "%d.%d.%d-%s.%d" % (x, y, z, lab, num) + ("" if post is None else ".post.%d" % post)
         pep = "%d.%d.%d%s%d" % (x, y, z, {"alpha": "a", "beta": "b", "rc": "rc"}[lab], num) + ("" if post is None else ".post%d" % post)
+        # flow also produces `.dev.<timestamp>` shapes (dirty trees; tag post-mode ahead of the tag): one case in eight carries one
+        dev = rng.choice([1790000000, 1710511845, 0]) if rng.random() < 0.125 else None
+        sem_nodev, pep_nodev = sem, pep
+        if dev is not None:
+            sem, pep = sem + ".dev.%d" % dev, pep + ".dev%d" % dev
         presets = ["standard", "standard-no-context", "standard-context", None]
         presets += ["standard-base-prerelease-post", "standard-base-prerelease-post-context"] if post is not None else ["standard-base-prerelease", "standard-base-prerelease-context"]
+        if dev is not None:
+            # a fixed schema without a dev component drops it by the user's own choice: only the smart presets and the fixed ones that carry dev
+            presets = ["standard", "standard-no-context", "standard-context", None, "standard-base-prerelease-post-dev", "standard-base-prerelease-post-dev-context"]
         preset = rng.choice(presets)
         for tag, infmt in ((sem, "semver"), (pep, "pep440")):
             for fmt, want in (("semver", sem), ("pep440", pep)):
@@ -188,6 +196,9 @@ def work_pretag(bins, seed, n):
                     bad.append(("panic@" + out.split(":")[0], out, case))
                 elif kk == "err":
                     bad.append(("clean-prerelease-tag-refused", "flow refused a clean pre-release tag: %s" % out[:150], case))
+                elif dev is not None and public(fmt, out) == (sem_nodev if fmt == "semver" else pep_nodev):
+                    # recorded finding: the clean-at-tag tier of the smart schemas has no dev component
+                    bad.append(("clean-prerelease-tag-with-dev-loses-dev", "clean at tag %s printed %r: the dev part is dropped" % (tag, out), case))
                 elif public(fmt, out) != want:
                     bad.append(("clean-prerelease-tag-changed", "clean at tag %s printed %r, expected %r" % (tag, out, want), case))
     return dict(n=k, bad=bad)
